@@ -15,7 +15,7 @@ RULE = ("the present/absent subset of the 11 optional keys is enumerated by case
         "form through the real argument parser; every case runs pystog_cli in a temporary directory and compares the files byte for byte "
         "with (i) the same kwargs with every omitted optional key filled with its default and (ii) a direct library drive; "
         "non-trivial = at least one optional key absent and one present")
-DIST = ["form", "invalid", "rsf", "filter", "lorch"]
+DIST = ["form", "invalid", "rsf", "filter", "lorch", "step"]
 SHRINK = None
 TRUSTED = ["lean/PystogVerif/Model/Config.lean is a hand-written model of parse_cli_args / __kwargs2attr / create_domain / cli sequencing, "
            "tied to /repo by the correspondence (attributes after construction, r grid bit for bit, list of files written by pystog_cli)"]
@@ -55,10 +55,14 @@ def gen(rng, i, tier):
             elif k == "FourierFilter":
                 v = {"Cutoff": float(rng.uniform(0.3, 0.7))}
         kw[k] = v
+    nostep = False
     if "Rdelta" not in kw:
-        kw["Rpoints" if rng.random() < 0.7 else "Rdelta"] = 10 if "Rdelta" not in kw and rng.random() < 2 else 0.1
-        if "Rdelta" in kw:
-            kw["Rdelta"] = 0.1
+        if rng.random() < 0.3:
+            nostep = True      # neither Rdelta nor Rpoints: the step is the default 0.01 and the grid must still follow Rmin/Rmax
+        else:
+            kw["Rpoints" if rng.random() < 0.7 else "Rdelta"] = 10 if "Rdelta" not in kw and rng.random() < 2 else 0.1
+            if "Rdelta" in kw:
+                kw["Rdelta"] = 0.1
     invalid = None
     if rng.random() < 0.15:
         invalid = str(rng.choice(["rsf", "recip", "lorch", "lowq"]))
@@ -69,10 +73,10 @@ def gen(rng, i, tier):
         elif invalid == "lowq":
             kw["OmittedXrangeCorrection"] = "yes"
     nfiles = int(rng.integers(1, 3))
-    form = "flags" if (invalid is None and rng.random() < 0.2) else "json"
+    form = "flags" if (invalid is None and not nostep and rng.random() < 0.2) else "json"
     return dict(kw=kw, nfiles=nfiles, invalid=invalid, form=form, seed=int(rng.integers(0, 2 ** 31)),
                 rsf=kw.get("RealSpaceFunction", "-"), filter="Cutoff" in kw.get("FourierFilter", {}), lorch=kw.get("LorchFlag", "-"),
-                absent=[k for k in OPT if k not in kw])
+                absent=[k for k in OPT if k not in kw], step="Rdelta" if "Rdelta" in kw else "Rpoints" if "Rpoints" in kw else "none")
 
 
 @contextlib.contextmanager
